@@ -10,6 +10,7 @@
 import numpy
 
 from .statevectorevolution import StateVectorEvolution
+from ..hilbertspace.statevector import StateVector
 from ..hilbertspace.evolutionoperator import EvolutionOperator
 #from ... import REAL
 
@@ -74,6 +75,12 @@ class StateVectorPropagator:
         
         
         """
+        # The rotating frame is tied to absolute time. The initial state is
+        # the state at the first point of the time axis; it is brought into
+        # the rotating frame there (no change if the axis starts at zero)
+        if self.ham.has_rwa:
+            psii = self._initial_state_in_RWA(psii)
+
         if hfce is not None:
             
             # propagation with the Hamiltonian defined through a function
@@ -90,6 +97,21 @@ class StateVectorPropagator:
         return self._propagate_short_exp(psii, L=L)
         
         
+    def _initial_state_in_RWA(self, psii):
+        """Returns the initial state vector in the rotating frame
+
+        The frame rotates as exp(-i Omega t) with the absolute time t (this
+        is what `convert_from_RWA` undoes). A new object is returned, the
+        state submitted by the user is not changed.
+
+        """
+        t0 = self.timeaxis.data[0]
+        if t0 == 0.0:
+            return psii
+        HOmega = self.ham.get_RWA_skeleton()
+        return StateVector(data=numpy.exp(1j*HOmega*t0)*psii.data)
+
+
     def get_evolution_operator(self):
         """Returns the evolution operator corresponding to the propagator
         
